@@ -202,7 +202,7 @@ def _unescape(s, uri=False):
 
 # Rudimentary elements
 hs_digit = Regex(r'\d')
-hs_digits = Regex(r'[0-9_]+').setParseAction(
+hs_digits = Regex(r'[0-9][0-9_]*').setParseAction(
     lambda toks: [''.join([t.replace('_', '') for t in toks[0]])])
 hs_alphaLo = Regex(r'[a-z]')
 hs_alphaHi = Regex(r'[A-Z]')
